@@ -327,9 +327,8 @@ def _radiolytic(n):
     @harness("C16", "Radiolytic.n%d" % n, functions=[RT + ":mk_Radiolytic", RT + ":mk_Radiolytic.<locals>._Radiolytic.__call__"], kind="shape-bounded", samples=20)
     def _(v):
         from chempy.kinetics.rates import mk_Radiolytic
-        names = ["", "alpha", "gamma"][:n] if n > 1 else [""]
-        if n == 2:
-            names = ["alpha", "gamma"]
+        # field names deliberately NOT in alphabetical order: yields are positional, each belongs to the field named at the same position
+        names = {1: [""], 2: ["gamma", "alpha"], 3: ["neutron", "alpha", "gamma"]}[n]
         cls = mk_Radiolytic(*names) if names != [""] else mk_Radiolytic()
         gs = [v.real("g%d" % i, lo=0, hi=1e-6) for i in range(len(names))]
         ds = [v.real("d%d" % i, lo=0, hi=100) for i in range(len(names))]
@@ -340,6 +339,7 @@ def _radiolytic(n):
         r = v.call(cls(gs), var)
         v.prove("rate", v.eq(r, rho * sum(d * g for d, g in zip(ds, gs))))
         v.prove("keys", cls.parameter_keys == ("density",) + tuple("doserate" + ("" if nm == "" else "_" + nm) for nm in names))
+        v.prove("yield_names_in_the_given_order", cls.argument_names == tuple("radiolytic_yield" + ("" if nm == "" else "_" + nm) for nm in names))
     return _
 
 
@@ -478,3 +478,28 @@ def _(v):
     v.prove_identity("override_replaces_exactly_A", r1, A2 * be.exp(-Ea / (R_DEFAULT * T)) * cA)
     two = v.run(ArrheniusParam(A, Ea).as_RateExpr, ("A_fwd", "Ea_fwd"))
     v.prove("two_keys_accepted", two.returned, detail=repr(two.exc))
+
+
+@harness("C16", "mutable_values_not_modified", functions=[RT + ":MassAction.active_conc_prod", RT + ":MassAction.__call__", RT + ":Arrhenius.__call__", "chempy.chemistry:Reaction.rate"], kind="data")
+def _(v):
+    """rate expressions evaluated on numpy arrays / quantities (what an integrator or a parameter scan hands in): the caller's variables are left
+    as they were and a second evaluation gives the same number"""
+    import numpy as np
+    from chempy.chemistry import Reaction
+    from chempy.kinetics.rates import MassAction, Arrhenius
+    from contracts._purity import prove_pure, deep_equal
+    rxn = Reaction({"A": 1, "B": 2}, {"C": 1}, MassAction([3.0]), checks=())
+    mk = lambda: (({"A": np.array([1.0, 2.0]), "B": np.array([3.0, 5.0]), "C": np.array([0.0, 1.0])},), {"reaction": rxn})
+    r = prove_pure(v, "MassAction.arrays", rxn.param, mk)
+    v.prove("MassAction.arrays.value", deep_equal(r, np.array([27.0, 150.0])), detail=repr(r))
+    prove_pure(v, "Reaction.rate.arrays", rxn.rate, lambda: (mk()[0], {}))
+    arr = Reaction({"A": 1}, {"C": 1}, MassAction(Arrhenius([2.0, 300.0])), checks=())
+    prove_pure(v, "Arrhenius.arrays", arr.param, lambda: (({"A": np.array([1.0, 2.0]), "temperature": np.array([300.0, 600.0])},), {"reaction": arr, "backend": np}))
+    try:
+        from chempy.units import default_units as u, to_unitless
+        rq = Reaction({"A": 1, "B": 2}, {"C": 1}, MassAction([3.0 / u.molar ** 2 / u.second]), checks=())
+        mq = lambda: (({"A": 1.0 * u.molar, "B": 3.0 * u.molar, "C": 0.0 * u.molar},), {"reaction": rq})
+        r = prove_pure(v, "MassAction.quantities", rq.param, mq, materialise=lambda x: float(to_unitless(x, u.molar / u.second)))
+        v.prove("MassAction.quantities.value", abs(r - 27.0) < 1e-12, detail=repr(r))
+    except ImportError:
+        pass
